@@ -521,7 +521,7 @@ def oracle_c09(ctx, budget_s):
                 if len(exps) != min(req, avail):
                     report(ctx, "count", case, "%s asked for %d of %d available returned %d" % (name, req, avail, len(exps)),
                            {"strategy": name, "requested": req},
-                           known_for(case.regs, "C09", "exhaust"))
+                           known_for(case.regs, "C09", "exhaust:missing-all" if not exps else "count:short"))
                     break
                 bad = [k for k, n in got.items() if n > mult.get(k, 0)]
                 if bad:
